@@ -16,6 +16,7 @@ import (
 	"encoding/hex"
 	"encoding/json"
 	"fmt"
+	"go/build"
 	"os"
 	"os/exec"
 	"path/filepath"
@@ -146,6 +147,9 @@ func repoSources() ([]string, error) {
 		n := e.Name()
 		if e.IsDir() || !strings.HasSuffix(n, ".go") || strings.HasSuffix(n, "_test.go") || strings.HasPrefix(n, "zz_verif_") {
 			continue
+		}
+		if ok, err := build.Default.MatchFile(repoDir, n); err != nil || !ok {
+			continue // excluded by build constraints
 		}
 		out = append(out, n)
 	}
